@@ -54,9 +54,19 @@ def nodata_for(dtype, kind):
     return -9999.0
 
 
-def make_data(full_shape, dtype):
+def make_data(full_shape, dtype, noisy=False):
     n = int(np.prod(full_shape))
     dt = np.dtype(dtype)
+    if noisy:
+        # deterministic, incompressible: splitmix64 finaliser of the pixel index (no RNG)
+        x = np.arange(1, n + 1, dtype="uint64")
+        with np.errstate(over="ignore"):
+            x ^= x >> np.uint64(30)
+            x *= np.uint64(0xBF58476D1CE4E5B9)
+            x ^= x >> np.uint64(27)
+            x *= np.uint64(0x94D049BB133111EB)
+            x ^= x >> np.uint64(31)
+        return ((x % np.uint64(250 if dt.itemsize == 1 else 65000)).astype("int64") + 1).astype(dt).reshape(full_shape)
     mod = 120 if dt.itemsize == 1 else 251
     a = (np.arange(n, dtype="int64") * 7 % mod + 1).reshape(full_shape)
     if dt.kind == "f":
@@ -83,18 +93,39 @@ def ambiguous(yx, layout):
     return False
 
 
-def build_xx(yx, layout, dtype, nodata, src_chunks):
+def _irregular(n, tile, variant):
+    """chunk tuple along one axis whose largest chunk equals `tile` but which is not the regular tiling"""
+    out, left, k = [], n, 0
+    pattern = (tile, 5, tile, 3) if variant == "irregular" else (10, tile, 14)
+    while left > 0:
+        c = min(pattern[k % len(pattern)], left)
+        out.append(c)
+        left -= c
+        k += 1
+    return tuple(out)
+
+
+def build_xx(yx, layout, dtype, nodata, src_chunks, tile=(16, 16), noisy=False):
     shape, n = layout_shape(yx, layout)
-    data = make_data(shape, dtype)
+    data = make_data(shape, dtype, noisy)
     gbox = GeoBox(yx, A0, CRS_)
-    cy, cx = src_chunks
+    band_chunk = None
+    if isinstance(src_chunks, str):
+        if src_chunks.startswith("irregular"):
+            cy, cx = (_irregular(yx[0], tile[0], src_chunks), _irregular(yx[1], tile[1], src_chunks))
+        else:
+            cy, cx = (8, 8) if src_chunks.endswith("-8") else tile
+            band_chunk = 1
+    else:
+        cy, cx = src_chunks
     kw = {} if nodata is None else dict(nodata=nodata)
     if layout == "YX":
         xx = wrap_xr(da.from_array(data, chunks=(cy, cx)), gbox, **kw)
     elif layout[0] == "YXS":
-        xx = wrap_xr(da.from_array(data, chunks=(cy, cx, n)), gbox, **kw)
+        xx = wrap_xr(da.from_array(data, chunks=(cy, cx, band_chunk or n)), gbox, **kw)
     else:
-        xx = wrap_xr(da.from_array(data, chunks=(1, cy, cx)), gbox, time=[f"2020-01-{i + 1:02d}" for i in range(n)], **kw)
+        xx = wrap_xr(da.from_array(data, chunks=(n if band_chunk is None and isinstance(src_chunks, str) else 1, cy, cx)), gbox,
+                     time=[f"2020-01-{i + 1:02d}" for i in range(n)], **kw)
     return xx, data, gbox
 
 
@@ -241,7 +272,7 @@ def _ifd_end(tf):
 
 def write_and_inspect(case_desc, yx, layout, dtype, ndkind, blocksize, src_chunks, r: R, cls: str, **kw):
     nodata = nodata_for(dtype, ndkind)
-    xx, data, gbox = build_xx(yx, layout, dtype, nodata, src_chunks)
+    xx, data, gbox = build_xx(yx, layout, dtype, nodata, src_chunks, tile=kw.pop("_tile", (16, 16)), noisy=kw.pop("_noisy", False))
     td = tempfile.mkdtemp(prefix="vf-c05-")
     try:
         path = os.path.join(td, "out.tif")
@@ -266,7 +297,9 @@ def write_and_inspect(case_desc, yx, layout, dtype, ndkind, blocksize, src_chunk
 
 
 # -- slices ----------------------------------------------------------------------------------------------
-SHAPES = ((1, 1), (1, 33), (33, 1), (16, 16), (17, 31), (64, 48), (70, 50), (100, 130), (2, 40))
+SHAPES = ((1, 1), (1, 33), (33, 1), (16, 16), (17, 31), (64, 48), (70, 50), (100, 130), (2, 40),
+          # elongated: padding to 2^levels adds whole tiles
+          (1, 300), (300, 1), (3, 200))
 LAYOUTS = ("YX", ("YXS", 2), ("YXS", 3), ("YXS", 4), ("SYX", 1), ("SYX", 2), ("SYX", 5))
 
 
@@ -285,7 +318,12 @@ def gen_s1(tier):
 def run_s1(case):
     _, yx, layout, dtype = case
     lk = layout if layout == "YX" else f"{layout[0]}{layout[1]}"
-    shp = "1px" if yx == (1, 1) else "row" if yx[0] == 1 else "col" if yx[1] == 1 else "lt-tile" if max(yx) <= 16 else "multi"
+    shp = ("1px" if yx == (1, 1) else "row" if yx[0] == 1 else "col" if yx[1] == 1 else "lt-tile" if max(yx) <= 16
+           else "elongated" if max(yx) >= 16 * min(yx) else "multi")
+    if max(yx) >= 200 and yx[0] == 1:
+        shp = "long-row"
+    if max(yx) >= 200 and yx[1] == 1:
+        shp = "long-col"
     r = R(outcome=f"s1:{lk}:{shp}")
     write_and_inspect(str(case), yx, layout, dtype, "nodata", [16], (16, 16), r, f"{lk}:{shp}", compression="deflate")
     return r
@@ -315,14 +353,19 @@ def run_s2(case):
 
 
 BLOCKS = ([16], [32, 16], [16, 32], [(16, 32)], [20], [48], [256])
-SRC_CHUNKS = {"tile": None, "smaller": (8, 8), "larger": (64, 64), "non-dividing": (23, 17)}
+SRC_CHUNKS = {"tile": None, "smaller": (8, 8), "larger": (64, 64), "non-dividing": (23, 17),
+              # irregular chunks whose largest chunk equals the tile size / band axis split over several chunks
+              "irregular": "irregular", "irregular-first-small": "irregular2", "band-split": "band-split",
+              "band-split-smaller": "band-split-8"}
 
 
 def gen_s3(tier):
     def g():
         for bi, _ in enumerate(BLOCKS):
             for sc in SRC_CHUNKS:
-                for yx, layout in (((70, 50), "YX"), ((33, 100), ("SYX", 2)), ((40, 37), ("YXS", 3))):
+                for yx, layout in (((70, 50), "YX"), ((33, 100), ("SYX", 2)), ((40, 37), ("YXS", 3)), ((50, 70), ("YXS", 5))):
+                    if sc.startswith("band-split") and layout == "YX":
+                        continue
                     yield ("s3", bi, sc, yx, layout)
 
     return g
@@ -332,30 +375,34 @@ def run_s3(case):
     _, bi, sc, yx, layout = case
     bs = BLOCKS[bi]
     first = bs[0] if isinstance(bs[0], tuple) else (bs[0], bs[0])
-    chunks = SRC_CHUNKS[sc] or tuple(-(-b // 16) * 16 for b in first)
+    tile = tuple(-(-b // 16) * 16 for b in first)
+    chunks = SRC_CHUNKS[sc] or tile
     r = R(outcome=f"s3:b{bi}:{sc}")
     lk = layout if layout == "YX" else layout[0]
-    write_and_inspect(str(case), yx, layout, "int16", "nodata", bs, chunks, r, f"blocks{bs}:{sc}:{lk}", compression="deflate")
+    write_and_inspect(str(case), yx, layout, "int16", "nodata", bs, chunks, r, f"blocks{bs}:{sc}:{lk}", compression="deflate",
+                      _tile=tile)
     return r
 
 
 def gen_s4(tier):
     def g():
-        for spill in (1, 4096, 20 * (1 << 20)):
-            for wpc in (1, 2, 4):
+        for spill in (1, 4096, 20000, 20 * (1 << 20)):
+            for wpc in (1, 2, 3, 5):
                 for pb in (False, True):
-                    for yx, layout in (((70, 50), "YX"), ((100, 130), ("SYX", 2))):
-                        yield ("s4", spill, wpc, pb, yx, layout)
+                    for yx, layout, bs in (((260, 390), "YX", [128]), ((130, 200), ("SYX", 2), [64, 32]), ((70, 50), "YX", [16])):
+                        yield ("s4", spill, wpc, pb, yx, layout, tuple(bs))
 
     return g
 
 
 def run_s4(case):
-    _, spill, wpc, pb, yx, layout = case
-    r = R(outcome=f"s4:spill{spill}:wpc{wpc}:pb{int(pb)}")
+    _, spill, wpc, pb, yx, layout, bs = case
+    r = R(outcome=f"s4:spill{spill}:wpc{wpc}:pb{int(pb)}:b{bs[0]}")
     lk = layout if layout == "YX" else layout[0]
-    write_and_inspect(str(case), yx, layout, "uint16", "nodata", [16], (16, 16), r, f"spill{spill}:wpc{wpc}:{lk}",
-                      compression="zstd", spill_sz=spill, writes_per_chunk=wpc, parts_base_other=pb)
+    tile = (bs[0], bs[0])
+    # poorly compressible pixels and 64 px tiles: partitions are large enough to spill several parts each
+    write_and_inspect(str(case), yx, layout, "uint16", "nodata", list(bs), tile, r, f"spill{spill}:wpc{wpc}:{lk}:b{bs[0]}",
+                      compression="zstd", spill_sz=spill, writes_per_chunk=wpc, parts_base_other=pb, _noisy=True, _tile=tile)
     return r
 
 
@@ -444,7 +491,7 @@ def main(ctx):
         "within the deviation bound; non-trivial = every case (each writes and decodes a file)"
     )
     ctx.bounds = dict(shapes=SHAPES, layouts=[str(x) for x in LAYOUTS], blocksizes=[str(b) for b in BLOCKS],
-                      src_chunks=SRC_CHUNKS, spill=[1, 4096, 20 << 20], writes_per_chunk=[1, 2, 4],
+                      src_chunks=SRC_CHUNKS, spill=[1, 4096, 20000, 20 << 20], writes_per_chunk=[1, 2, 3, 5],
                       deviation_bound=1 if ctx.tier == "quick" else 2)
     ctx.assumptions = [
         "rasterio/GDAL and tifffile are independent, trusted decoders",
